@@ -886,7 +886,7 @@ static void rnd_gen(Ctx& ctx) {
         case P_FFTR: case P_FFTC: w = 0.6; break;
         default: break;
         }
-        const int budget = int(w * ctx.by_tier(12000, 120000));
+        const int budget = int(w * ctx.by_tier(12000, 80000));
         const bool rls = (p == P_RLSR || p == P_RLSC);
         ctx.rc(PNAME[p], budget, [&]() {
             const Params q = gen_params(p);
@@ -976,7 +976,7 @@ static void ind_check(const Json& c, Out& o) {
     o.evals = m;
 }
 static void ind_gen(Ctx& ctx) {
-    ctx.rc("mixed", ctx.by_tier(200000, 2000000), [&]() {
+    ctx.rc("mixed", ctx.by_tier(200000, 1200000), [&]() {
         const int m = pick(2, 3);
         Json c = Json::object();
         c.set("m", m).set("lazy", pick(0, 1)).set("drop", pick(0, 1)).set("stick", one_of(std::vector<int>{0, 50, 90})).set("oseed", (long long)seed64());
